@@ -1254,7 +1254,19 @@ impl UnixCmsg {
             BlockingMode::Blocking => {},
         }
 
-        let result = recvmsg(fd, &mut self.msghdr, RECVMSG_FLAGS);
+        let mut result = recvmsg(fd, &mut self.msghdr, RECVMSG_FLAGS);
+        if result == 0 {
+            // The kernel looks at the queue first and at the peer's shutdown afterwards, so end of
+            // file can overtake a message the peer queued just before it closed. Once the
+            // shutdown is visible nothing more can arrive: one more look at the queue settles it.
+            self.msghdr.msg_controllen =
+                CMSG_SPACE(MAX_FDS_IN_CMSG as usize * mem::size_of::<c_int>()) as MsgControlLen;
+            self.msghdr.msg_flags = 0;
+            result = recvmsg(fd, &mut self.msghdr, RECVMSG_FLAGS | libc::MSG_DONTWAIT);
+            if result < 0 && matches!(UnixError::last(), UnixError::Errno(EAGAIN)) {
+                result = 0;
+            }
+        }
 
         let result = match result.cmp(&0) {
             cmp::Ordering::Equal => Err(UnixError::ChannelClosed),
